@@ -4,6 +4,7 @@ import (
 	"fmt"
 	"go/constant"
 	"go/token"
+	"go/types"
 	"strings"
 
 	"golang.org/x/tools/go/ssa"
@@ -73,7 +74,36 @@ func checkLisk32(c *Ctx) {
 			c.Require("C08.L1 lisk32-alphabet", site, p.InstrPos(at), "a character's value is its position in the writer's alphabet, used only where the search found it", sameAlpha && nonNeg, fmt.Sprintf("same alphabet=%v, found(>=0) on every path=%v", sameAlpha, nonNeg))
 			return
 		}
-		// table idiom: value loaded from a package-level array
+		// table idiom: value loaded from a package-level array — possibly behind a range guard
+		// that answers a negative constant itself (φ of negative constants and the table load)
+		var alts []ssa.Value
+		if phi, ok := root.(*ssa.Phi); ok {
+			alts = phi.Edges
+		} else if call, ok := stripConv(v).(*ssa.Call); ok {
+			if h := newHelperCallee(call); h != nil {
+				for _, r := range Returns(h) {
+					if len(r.Results) == 1 {
+						alts = append(alts, r.Results[0])
+					}
+				}
+			}
+		}
+		if len(alts) > 0 {
+			var load ssa.Value
+			okPhi := true
+			for _, e := range alts {
+				if k, isC := e.(*ssa.Const); isC && k.Value != nil && k.Value.Kind() == constant.Int && constant.Sign(k.Value) < 0 {
+					continue
+				}
+				if load != nil && load != e {
+					okPhi = false
+				}
+				load = e
+			}
+			if okPhi && load != nil {
+				root = valueRoot(stripConv(load))
+			}
+		}
 		if un, ok := root.(*ssa.UnOp); ok && un.Op == token.MUL {
 			if ia, ok := un.X.(*ssa.IndexAddr); ok {
 				if g, ok := ia.X.(*ssa.Global); ok {
@@ -131,36 +161,56 @@ func checkLisk32(c *Ctx) {
 		c.Require("C08.L3 lisk32-prefix", FuncKey(w)+": prefix", p.Pos(w.Pos()), "the writer puts a constant prefix in front of the encoded characters", prefix != "", "")
 	}
 	nAcc := 0
-	for _, r := range Returns(val) {
-		rf := vf
-		if r.Parent() != val {
-			rf = factsOf(r.Parent())
+	want := fmt.Sprintf("%q", prefix)
+	var acceptExits func(fn *ssa.Function, depth int)
+	acceptExits = func(fn *ssa.Function, depth int) {
+		ff := factsOf(fn)
+		for _, r := range Returns(fn) {
+			rf := ff
+			if r.Parent() != fn {
+				rf = factsOf(r.Parent())
+			}
+			k := classifyReturn(rf, r)
+			if k == RetErr {
+				continue
+			}
+			if k != RetNil {
+				// the verdict is handed on from a new helper: its accepting exits are the ones to look at
+				if idx := errResultIndex(r.Parent()); idx >= 0 && depth < 2 {
+					if ex, ok := r.Results[idx].(*ssa.Extract); ok {
+						if call, ok := ex.Tuple.(*ssa.Call); ok {
+							if h := newHelperCallee(call); h != nil {
+								acceptExits(h, depth+1)
+								continue
+							}
+						}
+					}
+				}
+				continue
+			}
+			nAcc++
+			okSum := rf.EveryPathHas(r.Block(), func(f Fact) bool {
+				if !f.IsCmp || f.Op != token.EQL {
+					return false
+				}
+				l, rr := f.L, f.R
+				return (l.Op == "call" && strings.HasSuffix(l.Sym, "codec.polymod") && rr.String() == "1") || (rr.Op == "call" && strings.HasSuffix(rr.Sym, "codec.polymod") && l.String() == "1")
+			})
+			c.Require("C08.L2 lisk32-checksum", FuncKey(val)+": accept", p.InstrPos(r), "a text is accepted only under polymod(values) == 1", okSum, "")
+			okPre := prefix != "" && rf.EveryPathHas(r.Block(), func(f Fact) bool {
+				s := f.String()
+				if !strings.Contains(s, want) {
+					return false
+				}
+				if f.IsCmp {
+					return f.Op == token.EQL && strings.Contains(s, "p0[")
+				}
+				return f.Truth && f.B.Op == "call" && strings.HasSuffix(f.B.Sym, "strings.HasPrefix")
+			})
+			c.Require("C08.L3 lisk32-prefix", FuncKey(val)+": accept", p.InstrPos(r), "a text is accepted only when it starts with the prefix the writer produces ("+want+"): text → bytes → text gives the text back", okPre, "")
 		}
-		if k := classifyReturn(rf, r); k != RetNil {
-			continue
-		}
-		nAcc++
-		okSum := rf.EveryPathHas(r.Block(), func(f Fact) bool {
-			if !f.IsCmp || f.Op != token.EQL {
-				return false
-			}
-			l, rr := f.L, f.R
-			return (l.Op == "call" && strings.HasSuffix(l.Sym, "codec.polymod") && rr.String() == "1") || (rr.Op == "call" && strings.HasSuffix(rr.Sym, "codec.polymod") && l.String() == "1")
-		})
-		c.Require("C08.L2 lisk32-checksum", FuncKey(val)+": accept", p.InstrPos(r), "a text is accepted only under polymod(values) == 1", okSum, "")
-		want := fmt.Sprintf("%q", prefix)
-		okPre := prefix != "" && rf.EveryPathHas(r.Block(), func(f Fact) bool {
-			s := f.String()
-			if !strings.Contains(s, want) {
-				return false
-			}
-			if f.IsCmp {
-				return f.Op == token.EQL && strings.Contains(s, "p0[")
-			}
-			return f.Truth && f.B.Op == "call" && strings.HasSuffix(f.B.Sym, "strings.HasPrefix")
-		})
-		c.Require("C08.L3 lisk32-prefix", FuncKey(val)+": accept", p.InstrPos(r), "a text is accepted only when it starts with the prefix the writer produces ("+want+"): text → bytes → text gives the text back", okPre, "")
 	}
+	acceptExits(val, 0)
 	c.MinInstances("C08.L2 lisk32-checksum", nAcc, 1)
 	// the decoder hands out bytes only after validation
 	df := factsOf(dec)
@@ -177,6 +227,10 @@ func checkLisk32(c *Ctx) {
 			if f.IsCmp && f.Op == token.EQL && strings.Contains(s, "codec.ValidateLisk32(p0)") && strings.Contains(s, "nil") {
 				return true
 			}
+			// … or the validation done through another route that ends in the checksum test
+			if f.IsCmp && f.Op == token.EQL && strings.Contains(s, "codec.polymod(") && (strings.HasSuffix(s, " == 1") || strings.HasPrefix(s, "1 == ")) {
+				return true
+			}
 			// the empty text is the empty address
 			return f.IsCmp && f.Op == token.EQL && (s == `p0 == ""` || s == `"" == p0` || s == "builtin:len(p0) == 0" || s == "0 == builtin:len(p0)")
 		})
@@ -187,6 +241,49 @@ func checkLisk32(c *Ctx) {
 // tableHasNegativeFill: some function stores a negative constant into every element of the
 // global array g (a loop over the whole array storing the constant).
 func tableHasNegativeFill(p *Program, g *ssa.Global) bool {
+	// the table may be built by a function whose result initialises the variable: the fill is
+	// then a store into that function's local array
+	builders := map[*ssa.Function]bool{}
+	for _, fn := range p.OwnFuncs {
+		for _, b := range fn.Blocks {
+			for _, in := range b.Instrs {
+				if st, ok := in.(*ssa.Store); ok && st.Addr == ssa.Value(g) {
+					if call, ok := st.Val.(*ssa.Call); ok {
+						if f := call.Common().StaticCallee(); f != nil {
+							builders[f] = true
+						}
+					}
+				}
+			}
+		}
+	}
+	for f := range builders {
+		for _, b := range f.Blocks {
+			for _, in := range b.Instrs {
+				st, ok := in.(*ssa.Store)
+				if !ok {
+					continue
+				}
+				ia, ok := st.Addr.(*ssa.IndexAddr)
+				if !ok {
+					continue
+				}
+				if _, isAlloc := ia.X.(*ssa.Alloc); !isAlloc {
+					continue
+				}
+				if !types.Identical(ia.X.Type().Underlying().(*types.Pointer).Elem(), g.Type().Underlying().(*types.Pointer).Elem()) {
+					continue
+				}
+				k, ok := st.Val.(*ssa.Const)
+				if !ok || k.Value == nil || k.Value.Kind() != constant.Int || constant.Sign(k.Value) >= 0 {
+					continue
+				}
+				if _, isConstIdx := ia.Index.(*ssa.Const); !isConstIdx {
+					return true
+				}
+			}
+		}
+	}
 	for _, fn := range p.Subjects() {
 		if len(fn.Blocks) == 0 {
 			continue
@@ -216,4 +313,50 @@ func tableHasNegativeFill(p *Program, g *ssa.Global) bool {
 		}
 	}
 	return false
+}
+
+// checkDecodedIntegerArithmetic — C08.Z1. A decoded varint ranges over all of uint64: adding
+// to, subtracting from or multiplying it in the unsigned domain wraps at the boundary, and a
+// value that wrapped decodes to something its encoder never wrote (zig-zag: MaxUint64 is the
+// encoding of MinInt64; `(v+1)/2` wraps to 0). Such arithmetic is accepted only under a
+// dominating fact that bounds the operand; shifts, masks and xor cannot wrap.
+func checkDecodedIntegerArithmetic(c *Ctx) {
+	p := c.P
+	n := 0
+	for _, fn := range p.Subjects() {
+		if !strings.HasPrefix(FuncKey(fn), "pkg/codec.") || len(fn.Blocks) == 0 || !IsProd(fn) {
+			continue
+		}
+		ff := factsOf(fn)
+		for _, b := range blocksDeep(fn) {
+			for _, in := range b.Instrs {
+				bo, ok := in.(*ssa.BinOp)
+				if !ok || (bo.Op != token.ADD && bo.Op != token.SUB && bo.Op != token.MUL) {
+					continue
+				}
+				bt, ok := bo.Type().Underlying().(*types.Basic)
+				if !ok || bt.Kind() != types.Uint64 {
+					continue
+				}
+				var decoded *Term
+				for _, opnd := range []ssa.Value{bo.X, bo.Y} {
+					t := ff.Term(opnd)
+					if t.Any(func(u *Term) bool {
+						return u.Op == "call" && (strings.HasSuffix(u.Sym, "codec.Reader).readUInt") || strings.HasSuffix(u.Sym, "codec.readUint"))
+					}) {
+						decoded = t
+					}
+				}
+				if decoded == nil {
+					continue
+				}
+				n++
+				bounded := ff.EveryPathHas(bo.Block(), func(f Fact) bool {
+					return f.IsCmp && (f.Op == token.LSS || f.Op == token.LEQ || f.Op == token.GTR || f.Op == token.GEQ || f.Op == token.EQL) && strings.Contains(f.String(), decoded.String())
+				})
+				c.Require("C08.Z1 decoded-integer-arithmetic-cannot-wrap", FuncKey(fn)+": "+ff.Term(bo).String(), p.InstrPos(bo), "unsigned +, −, × on a decoded varint happens only where a dominating comparison bounds it (the full uint64 range is valid input)", bounded, "operand "+decoded.String())
+			}
+		}
+	}
+	c.Count("unsigned arithmetic sites on decoded varints", n)
 }
